@@ -161,6 +161,9 @@ def worker(args, scratch):
                         res["violations"].append(["unattributable-bytes-upstream", {"host": name, "head": u.raw_head.decode("latin-1")[:300]}])
                 if m.errors:
                     res["violations"].append(["malformed-bytes-upstream", {"host": name, "errors": m.errors[:3]}])
+                with m.lock:
+                    # judged: forget them (the per-request lookup scans this list, so it must not grow with the length of the run)
+                    m.requests.clear(); m.conn_raw.clear(); del m.errors[:]
         # a process that becomes another program (execve in the same pid) is judged as what it is now: rules that name a program by
         # process name or executable path must refuse it once it runs something else
         for k in range(args.get("exec_histories", 3)):
